@@ -187,17 +187,20 @@ fn term_of(t: &Term) -> Option<T> {
     }
 }
 
-/// the fragment term a program is, if it is one
-pub fn of_ast(p: &Program) -> Option<T> {
+/// the steps of the program, if it is one sequence of one-term chains of the fragment
+pub fn of_ast(p: &Program) -> Option<Vec<T>> {
     let [Statement::Expression(seq)] = p.statements.as_slice() else { return None };
-    let [chain] = seq.chains.as_slice() else { return None };
-    if chain.match_pattern.is_some() || chain.terms.len() != 1 {
-        return None;
+    let mut out = vec![];
+    for chain in &seq.chains {
+        if chain.match_pattern.is_some() || chain.terms.len() != 1 {
+            return None;
+        }
+        out.push(term_of(&chain.terms[0])?);
     }
-    term_of(&chain.terms[0])
+    Some(out)
 }
 
-fn real_parse(src: &str) -> Result<Option<T>, String> {
+fn real_parse(src: &str) -> Result<Option<Vec<T>>, String> {
     match catch(|| parse(src)) {
         Ok(Ok(p)) => Ok(of_ast(&p)),
         Ok(Err(e)) => Err(format!("rejected: {e:?}").chars().take(200).collect()),
@@ -205,50 +208,98 @@ fn real_parse(src: &str) -> Result<Option<T>, String> {
     }
 }
 
-fn report(ev: &mut Ev, what: &str, t: &T, src: &str, request: &str, imp: &str, model: &str) {
+fn prog_sx(ts: &[T]) -> String {
+    format!("(p{})", ts.iter().map(|t| format!(" {}", t.sx())).collect::<String>())
+}
+
+fn prog_flat(ts: &[T]) -> String {
+    ts.iter().map(|t| t.flat()).collect::<Vec<_>>().join(", ")
+}
+
+/// a step separator as `seq_sep` accepts it: a comma or a newline, surrounded by horizontal white
+/// space / comments, followed by any white space, comments and further separators
+fn step_sep(r: &mut Rng) -> String {
+    match r.below(10) {
+        0..=2 => ", ".into(),
+        3 => ",".into(),
+        4 | 5 => "\n".into(),
+        6 => "\n\n  ".into(),
+        7 => " , \n".into(),
+        8 => " // c\n".into(),
+        _ => " ,\r\n ,, // d\n\t".into(),
+    }
+}
+
+fn prog_layout(ts: &[T], r: &mut Rng) -> String {
+    let mut s = String::new();
+    if r.chance(1, 4) {
+        s.push_str(*r.pick(&[" ", "\n", "// head\n", "\n\n  "]));
+    }
+    for (i, t) in ts.iter().enumerate() {
+        if i > 0 {
+            s.push_str(&step_sep(r));
+        }
+        s.push_str(&t.layout(r));
+    }
+    if r.chance(1, 3) {
+        s.push_str(*r.pick(&["\n", " ", ",", " // tail", "\n\n", " ,\n"]));
+    }
+    s
+}
+
+fn report(ev: &mut Ev, what: &str, ts: &[T], src: &str, request: &str, imp: &str, model: &str) {
     let cut = |s: &str| -> String {
         if s.chars().count() > 240 { format!("{}…", s.chars().take(240).collect::<String>()) } else { s.to_string() }
     };
     ev.violation(
         &format!("frag {what}"),
         &format!(
-            "fragment term {}: {what} on {:?}: implementation `{}`, model ({}) `{}`",
-            cut(&t.flat()), cut(src), cut(imp), cut(request), cut(model)
+            "fragment program {}: {what} on {:?}: implementation `{}`, model ({}) `{}`",
+            cut(&prog_flat(ts)), cut(src), cut(imp), cut(request), cut(model)
         ),
-        json!({"kind": "frag", "broken": what, "term": t.sx(), "source": src, "request": request, "impl": imp, "model": model}),
+        json!({"kind": "frag", "broken": what, "program": prog_sx(ts), "source": src, "request": request, "impl": imp, "model": model}),
         true,
     );
 }
 
 pub fn part_frag(ev: &mut Ev, model: &mut Model, opts: &Opts) {
-    let cases: u64 = if opts.tier == qverif::Tier::Quick { 4000 } else { 60000 };
+    let cases: u64 = if opts.tier == qverif::Tier::Quick { 3000 } else { 40000 };
     for i in 0..cases {
         let mut r = Rng::for_case(opts.seed ^ 0xf4a6, i);
-        let depth = 1 + r.usize(4);
-        let t = gen_term(&mut r, depth);
-        let want = format!("ok {} -", t.sx());
+        let steps = match r.below(6) {
+            0..=2 => 1,
+            3 | 4 => 2 + r.usize(3),
+            _ => 4 + r.usize(12),
+        };
+        let ts: Vec<T> = (0..steps)
+            .map(|_| {
+                let depth = if steps > 3 { r.usize(3) } else { 1 + r.usize(4) };
+                gen_term(&mut r, depth)
+            })
+            .collect();
+        let want = format!("ok (pp {}) -", prog_sx(&ts));
         // 1. both parsers on a random layout
-        let src = if i % 3 == 0 { t.flat() } else { t.layout(&mut r) };
+        let src = if i % 3 == 0 { prog_flat(&ts) } else { prog_layout(&ts, &mut r) };
         let req = format!("frag-parse {}", hx(&src));
         let m = model.ask(&req);
         match real_parse(&src) {
-            Ok(Some(got)) if got == t => {}
-            other => report(ev, "parser differs from the expected term", &t, &src, &req, &format!("{other:?}"), &want),
+            Ok(Some(got)) if got == ts => {}
+            other => report(ev, "parser differs from the expected program", &ts, &src, &req, &format!("{other:?}"), &want),
         }
         if m != want {
-            report(ev, "parser model differs from the expected term", &t, &src, &req, "-", &m);
+            report(ev, "parser model differs from the expected program", &ts, &src, &req, "-", &m);
         }
         // 2. both formatters (the AST of the flat text carries no trivia)
-        let flat = t.flat();
+        let flat = prog_flat(&ts);
         let out = match catch(|| parse(&flat)) {
             Ok(Ok(p)) => catch(|| format_program(&p, &flat)).unwrap_or_else(|e| format!("panic: {e}")),
             other => format!("{other:?}"),
         };
-        let req = format!("frag-fmt {}", t.sx());
+        let req = format!("frag-fmt {}", prog_sx(&ts));
         let mo = model.ask(&req);
         let mo_text = mo.strip_prefix("s:").map(|h| String::from_utf8_lossy(&qverif::unhex(h)).to_string());
         if mo_text.as_deref() != Some(out.as_str()) {
-            report(ev, "formatter differs from the model", &t, &flat, &req, &out, mo_text.as_deref().unwrap_or(&mo));
+            report(ev, "formatter differs from the model", &ts, &flat, &req, &out, mo_text.as_deref().unwrap_or(&mo));
         }
         // 3. the theorem's instance, at a random page width; the real parser reads the same layout
         let w = match r.below(4) {
@@ -256,21 +307,21 @@ pub fn part_frag(ev: &mut Ev, model: &mut Model, opts: &Opts) {
             1 => 100,
             _ => r.usize(140),
         };
-        let req = format!("frag-print {w} {}", t.sx());
+        let req = format!("frag-print {w} {}", prog_sx(&ts));
         let printed = model.ask(&req);
         if let Some(text) = printed.strip_prefix("s:").map(|h| String::from_utf8_lossy(&qverif::unhex(h)).to_string()) {
             let req2 = format!("frag-parse {}", hx(&text));
             let back = model.ask(&req2);
             if back != want {
-                report(ev, "format_fixpoint_fragment fails at run time", &t, &text, &req2, "-", &back);
+                report(ev, "format_fixpoint_fragment fails at run time", &ts, &text, &req2, "-", &back);
             }
             match real_parse(&text) {
-                Ok(Some(got)) if got == t => {}
-                other => report(ev, "parser differs on a printed layout", &t, &text, &req2, &format!("{other:?}"), &want),
+                Ok(Some(got)) if got == ts => {}
+                other => report(ev, "parser differs on a printed layout", &ts, &text, &req2, &format!("{other:?}"), &want),
             }
             ev.case(&("frag", &text), text.contains('\n'));
         } else {
-            report(ev, "frag-print answers no text", &t, &flat, &req, "-", &printed);
+            report(ev, "frag-print answers no text", &ts, &flat, &req, "-", &printed);
         }
         ev.hit("frag_cases");
     }
